@@ -32,6 +32,10 @@ def run(ck):
     ck.clause("C13.3", "segments are built only via AlignmentSegment.create / EmptyAlignmentSegment")
     ck.clause("C13.4", "empty-segment fallback and final emission")
     ck.clause("C13.5", "the scan covers every position once")
+    ck.clause("C13.6", "a segment's score is exactly the sum of its members' scores (as C04.2): the builder compares its running sum with it")
+    from ..report import RuleView
+    from . import c04
+    c04.ownership(RuleView(ck, {"C04.2": "C13.6"}))
     factory = p.find_class("AlignmentSegmentsFactory")
     finit = p.lookup_method(factory, "__init__", None)
     get = p.lookup_method(factory, "getSegments", None)
@@ -88,6 +92,21 @@ def run(ck):
     if not news:
         raise AnalysisError(f"{get.where}: builder construction not found: {T.show(v)[:160]}")
     bnew = news[0]
+    # C13.7 the factory hands the builder's list back as it is (position order): no re-ordering, slicing or filtering on top
+    ck.clause("C13.7", "the factory returns the builder's segments unchanged (in position order)")
+    direct = (v[0] == "app" and v[2] == bnew) or (v[0] == "mcall" and v[1] == bnew)
+    if direct:
+        ck.ok("C13.7", "AlignmentSegmentsFactory.getSegments:unchanged", where(get, grets[0].node),
+              "segments are returned exactly as the builder produced them", T.show(v)[:100])
+    else:
+        wrappers = [x[1] for x in T.subterms(v) if x[0] == "call" and T.contains(x, bnew)]
+        slices = [x for x in T.subterms(v) if x[0] in ("slice", "comp") and T.contains(x, bnew)]
+        if wrappers or slices:
+            ck.violation("C13.7", "AlignmentSegmentsFactory.getSegments:unchanged", where(get, grets[0].node),
+                         "the factory re-orders / selects among the builder's segments: they are no longer the disjoint runs in position "
+                         "order", found=T.show(v)[:200], required="<builder>.getSegments()")
+        else:
+            raise AnalysisError(f"{where(get, grets[0].node)}: value returned by the factory not recognised: {T.show(v)[:160]}")
     builder = p.classes[bnew[1]]
     battr = E.init_param_to_attr(ctx, builder)
     bargs = dict(bnew[2])
